@@ -64,7 +64,13 @@ var translationUnits = []tunit{
 		{"internal/authz/oidc.go", "isValidIDPNewTokensResponse"},
 		{"internal/authz/oidc.go", "isValidIDPRefreshTokenResponse"},
 		{"internal/authz/oidc.go", "oidcHandler.areRequiredTokensExpired"},
-	}, consts: []string{"internal/authz/oidc.go"}},
+		{"internal/authz/oidc.go", "newDenyResponse"},
+		{"internal/authz/oidc.go", "newSessionErrorResponse"},
+		{"internal/authz/oidc.go", "setDenyResponse"},
+		{"internal/authz/oidc.go", "setRedirect"},
+		{"internal/authz/oidc.go", "setSetCookieHeader"},
+		{"internal/authz/oidc.go", "oidcHandler.allowResponse"},
+	}, consts: []string{"internal/authz/oidc.go"}, vars: []tfunc{{"internal/authz/oidc.go", "standardResponseHeaders"}}},
 }
 
 // Go type -> Lean type
@@ -78,6 +84,9 @@ var typeTable = map[string]string{
 	"*oidc.TokenResponse": "Pb.TokenResponse", "*oidcHandler": "Pb.OidcHandler",
 	"*envoy.CheckResponse": "Pb.CheckResponse", "authz.Handler": "Pb.Handler", "*ExtAuthZFilter": "Pb.ExtAuthZFilter",
 	"*status.Status": "Pb.Status", "codes.Code": "Int", "*structpb.Value": "Pb.Value",
+	"*envoy.DeniedHttpResponse": "Pb.DeniedHttpResponse", "*envoy.OkHttpResponse": "Pb.OkHttpResponse", "*corev3.HeaderValueOption": "Pb.HeaderValueOption",
+	"*corev3.HeaderValue": "Pb.HeaderValue", "*typev3.HttpStatus": "Pb.HttpStatus", "[]*corev3.HeaderValueOption": "List Pb.HeaderValueOption",
+	"*envoy.CheckResponse_DeniedResponse": "Pb.CheckResponse_DeniedResponse", "*envoy.CheckResponse_OkResponse": "Pb.CheckResponse_OkResponse",
 }
 
 var zeroTable = map[string]string{
@@ -144,19 +153,21 @@ func fail(n ast.Node, format string, a ...any) {
 // ---------------------------------------------------------------------------------------------------------------
 
 type tctx struct {
-	funcs    map[string]*ast.FuncDecl // translated functions by Go name (all units)
-	consts   map[string]bool          // emitted string constants
-	loggers  map[string]bool          // identifiers that hold a telemetry.Logger
-	builders map[string]bool          // identifiers that hold a strings.Builder
-	types    map[string]string        // identifier -> Go type, where declared or inferable
-	assigned map[string]bool          // identifiers assigned after their declaration
-	results  []*ast.Field             // named results
-	resNames []string
-	fd       *ast.FuncDecl
-	used     map[string]int // identifier uses outside dropped statements
-	tmp      int
-	byteCtx  bool
-	resTypes []string // Lean result types, for typed nil in return statements
+	funcs        map[string]*ast.FuncDecl // translated functions by Go name (all units)
+	consts       map[string]bool          // emitted string constants
+	loggers      map[string]bool          // identifiers that hold a telemetry.Logger
+	builders     map[string]bool          // identifiers that hold a strings.Builder
+	types        map[string]string        // identifier -> Go type, where declared or inferable
+	assigned     map[string]bool          // identifiers assigned after their declaration
+	results      []*ast.Field             // named results
+	resNames     []string
+	fd           *ast.FuncDecl
+	used         map[string]int // identifier uses outside dropped statements
+	tmp          int
+	byteCtx      bool
+	fieldWritten map[string]bool // pointer variables written through (p.F = v)
+	mutParams    []string        // pointer parameters written through: handed back to the caller
+	resTypes     []string        // Lean result types, for typed nil in return statements
 }
 
 func typeStr(e ast.Expr) string { return strings.Join(strings.Fields(src(e)), "") }
@@ -223,6 +234,12 @@ func (c *tctx) countUses(n ast.Node) {
 				if ix, ok := l.(*ast.IndexExpr); ok {
 					if id, ok := ix.X.(*ast.Ident); ok {
 						c.assigned[id.Name] = true
+					}
+				}
+				if sel, ok := l.(*ast.SelectorExpr); ok {
+					if id, ok := sel.X.(*ast.Ident); ok {
+						c.assigned[id.Name] = true
+						c.fieldWritten[id.Name] = true
 					}
 				}
 			}
@@ -407,15 +424,7 @@ func (c *tctx) expr(e ast.Expr) string {
 					if len(cl.Elts) == 0 {
 						return lt + ".new"
 					}
-					var fs []string
-					for _, el := range cl.Elts {
-						kv, ok := el.(*ast.KeyValueExpr)
-						if !ok {
-							fail(e, "positional composite literal")
-						}
-						fs = append(fs, lname(typeStr(kv.Key))+" := "+c.expr(kv.Value))
-					}
-					return "({ " + strings.Join(fs, ", ") + " } : " + lt + ")"
+					return c.structLit(e, cl, lt)
 				}
 			}
 			fail(e, "address-of outside the translated subset (only &T{} of a mirrored message type)")
@@ -499,6 +508,13 @@ func (c *tctx) expr(e ast.Expr) string {
 		if strings.HasPrefix(t, "[]") {
 			var el []string
 			for _, y := range x.Elts {
+				if cl, ok := y.(*ast.CompositeLit); ok && cl.Type == nil {
+					// elided element type: `[]*T{{…}}` is `[]*T{&T{…}}`
+					if lt, ok := typeTable[t[2:]]; ok {
+						el = append(el, c.structLit(y, cl, lt))
+						continue
+					}
+				}
 				el = append(el, c.expr(y))
 			}
 			return "[" + strings.Join(el, ", ") + "]"
@@ -510,6 +526,9 @@ func (c *tctx) expr(e ast.Expr) string {
 			if _, isVar := c.types[id.Name]; !isVar && c.used[id.Name] > 0 && c.consts[x.Sel.Name] && !c.isLocal(id.Name) {
 				return x.Sel.Name
 			}
+		}
+		if id, ok := x.X.(*ast.Ident); ok && id.Name == "typev3" && x.Sel.Name == "StatusCode_Found" {
+			return "(302 : Int)"
 		}
 		if id, ok := x.X.(*ast.Ident); ok && id.Name == "codes" && !c.isLocal("codes") {
 			if v, ok := grpcCodes[x.Sel.Name]; ok {
@@ -523,6 +542,21 @@ func (c *tctx) expr(e ast.Expr) string {
 	}
 	fail(e, "expression outside the translated subset")
 	return ""
+}
+
+func (c *tctx) structLit(e ast.Expr, cl *ast.CompositeLit, lt string) string {
+	if len(cl.Elts) == 0 {
+		return lt + ".new"
+	}
+	var fs []string
+	for _, el := range cl.Elts {
+		kv, ok := el.(*ast.KeyValueExpr)
+		if !ok {
+			fail(e, "positional composite literal")
+		}
+		fs = append(fs, lname(typeStr(kv.Key))+" := "+c.expr(kv.Value))
+	}
+	return "({ " + strings.Join(fs, ", ") + " } : " + lt + ")"
 }
 
 func (c *tctx) isLocal(name string) bool {
@@ -582,6 +616,9 @@ func (c *tctx) call(x *ast.CallExpr) string {
 		}
 		fail(x, "make of a type outside the translated subset")
 	case "append":
+		if x.Ellipsis != token.NoPos && len(x.Args) == 2 {
+			return "(" + c.expr(x.Args[0]) + " ++ " + c.expr(x.Args[1]) + ")"
+		}
 		if x.Ellipsis != token.NoPos || len(x.Args) < 2 {
 			fail(x, "append form outside the translated subset")
 		}
@@ -704,6 +741,26 @@ type out struct {
 func (o *out) line(ind int, s string) { o.sb.WriteString(strings.Repeat("  ", ind) + s + "\n") }
 
 func (c *tctx) retExpr(rs []ast.Expr, n ast.Node) string {
+	if len(c.mutParams) > 0 {
+		saved := c.mutParams
+		c.mutParams = nil
+		base := c.retExpr(rs, n)
+		c.mutParams = saved
+		var parts []string
+		if !(len(rs) == 0 && len(c.resNames) == 0) {
+			parts = append(parts, strings.TrimSuffix(strings.TrimPrefix(base, "("), ")"))
+			if len(rs) <= 1 && len(c.resNames) <= 1 {
+				parts[0] = base
+			}
+		}
+		for _, pn := range saved {
+			parts = append(parts, lname(pn))
+		}
+		if len(parts) == 1 {
+			return parts[0]
+		}
+		return "(" + strings.Join(parts, ", ") + ")"
+	}
 	if len(rs) == 0 {
 		if len(c.resNames) == 0 {
 			return "()"
@@ -895,6 +952,18 @@ func (c *tctx) assign(o *out, ind int, x *ast.AssignStmt) {
 			}
 			o.line(ind, lname(id.Name)+" := Go.Map.set "+lname(id.Name)+" "+c.expr(ix.Index)+" "+c.expr(x.Rhs[0]))
 			return
+		}
+	}
+	// p.F = v : a write through a pointer variable (a nil pointer panics); when p is a parameter the caller sees the write,
+	// so the translation hands the new value of p back (see translateFunc)
+	if len(x.Lhs) == 1 && len(x.Rhs) == 1 && x.Tok == token.ASSIGN {
+		if sel, ok := x.Lhs[0].(*ast.SelectorExpr); ok {
+			if id, ok := sel.X.(*ast.Ident); ok && c.isLocal(id.Name) {
+				v := lname(id.Name)
+				o.line(ind, v+" := { (← Go.derefNil ("+v+").isNil "+v+") with "+lname(sel.Sel.Name)+" := "+c.expr(x.Rhs[0])+" }")
+				return
+			}
+			fail(x, "assignment to a field of something that is not a local pointer variable")
 		}
 	}
 	if x.Tok == token.ADD_ASSIGN && len(x.Lhs) == 1 {
@@ -1223,7 +1292,7 @@ func translateFunc(all map[string]*ast.FuncDecl, consts map[string]bool, fd *ast
 		}
 	}()
 	c := &tctx{funcs: all, consts: consts, loggers: map[string]bool{}, builders: map[string]bool{}, types: map[string]string{},
-		assigned: map[string]bool{}, fd: fd, used: map[string]int{}}
+		assigned: map[string]bool{}, fd: fd, used: map[string]int{}, fieldWritten: map[string]bool{}}
 	var params []string
 	if fd.Recv != nil && len(fd.Recv.List) == 1 && len(fd.Recv.List[0].Names) == 1 {
 		r := fd.Recv.List[0]
@@ -1244,6 +1313,24 @@ func translateFunc(all map[string]*ast.FuncDecl, consts map[string]bool, fd *ast
 		}
 	}
 	c.countUses(fd.Body)
+	var paramOrder []string
+	var paramTypes = map[string]string{}
+	if fd.Recv != nil && len(fd.Recv.List) == 1 && len(fd.Recv.List[0].Names) == 1 {
+		paramOrder = append(paramOrder, fd.Recv.List[0].Names[0].Name)
+	}
+	for _, p := range fd.Type.Params.List {
+		for _, nm := range p.Names {
+			if _, ok := typeTable[typeStr(p.Type)]; ok {
+				paramOrder = append(paramOrder, nm.Name)
+				paramTypes[nm.Name] = typeTable[typeStr(p.Type)]
+			}
+		}
+	}
+	for _, pn := range paramOrder {
+		if c.fieldWritten[pn] {
+			c.mutParams = append(c.mutParams, pn)
+		}
+	}
 	var rts []string
 	if fd.Type.Results != nil {
 		for _, r := range fd.Type.Results.List {
@@ -1261,6 +1348,9 @@ func translateFunc(all map[string]*ast.FuncDecl, consts map[string]bool, fd *ast
 		}
 	}
 	c.resTypes = rts
+	for _, pn := range c.mutParams {
+		rts = append(rts, paramTypes[pn])
+	}
 	rt := "Unit"
 	if len(rts) == 1 {
 		rt = rts[0]
@@ -1277,6 +1367,9 @@ func translateFunc(all map[string]*ast.FuncDecl, consts map[string]bool, fd *ast
 	}
 	o.line(0, "def "+lname(shortName(funcName(fd)))+" (env : Go.Env) "+extra+strings.Join(params, " ")+" : Go.M "+rt+" := do")
 	o.line(1, "let _ := env")
+	for _, pn := range c.mutParams {
+		o.line(1, "let mut "+lname(pn)+" := "+lname(pn))
+	}
 	if fd.Type.Results != nil {
 		for _, r := range fd.Type.Results.List {
 			for _, nm := range r.Names {
@@ -1291,8 +1384,8 @@ func translateFunc(all map[string]*ast.FuncDecl, consts map[string]bool, fd *ast
 	}
 	c.block(&o, 1, fd.Body.List)
 	// a Go function whose last statement is not a return (only possible without results)
-	if len(rts) == 0 {
-		o.line(1, "return ()")
+	if len(c.resTypes) == 0 {
+		o.line(1, "return "+c.retExpr(nil, fd))
 	}
 	return o.sb.String(), ""
 }
@@ -1320,7 +1413,7 @@ func translateVar(all map[string]*ast.FuncDecl, consts map[string]bool, f *ast.F
 					continue
 				}
 				c := &tctx{funcs: all, consts: consts, loggers: map[string]bool{}, builders: map[string]bool{}, types: map[string]string{},
-					assigned: map[string]bool{}, used: map[string]int{}}
+					assigned: map[string]bool{}, used: map[string]int{}, fieldWritten: map[string]bool{}}
 				if fl, ok := vs.Values[i].(*ast.FuncLit); ok {
 					if len(fl.Body.List) != 1 {
 						fail(fl, "function value with more than one statement")
@@ -1342,6 +1435,7 @@ func translateVar(all map[string]*ast.FuncDecl, consts map[string]bool, f *ast.F
 					}
 					return "def " + lname(name) + " " + strings.Join(params, " ") + " : " + c.leanType(fl.Type.Results.List[0].Type) + " := " + body + "\n", ""
 				}
+				c.countUses(vs.Values[i])
 				body := c.expr(vs.Values[i])
 				if strings.Contains(body, "(← ") {
 					fail(vs, "package-level value with a partial operation")
